@@ -11,6 +11,7 @@
 #include <cstdlib>
 #include <cctype>
 #include <sys/uio.h>
+#include <unistd.h>
 #include "node.h"
 #include "meta.h"
 #include "config.h"
@@ -23,7 +24,7 @@ const char *mc_rule = "DFS: all section/option trees up to depth D / fan-out F (
                       "permitted by the name flags and values {x, empty, 'x y', quoted with escaped quote, quoted with blanks+delimiters, f#g, quoted \"q\"}) "
                       "x 9 format strings (the 5 ctest formats, the default, 3 section styles) x decoration masks (indent, trailing blanks, blank lines, comment lines, trailing comments, "
                       "inner padding, line layout, no final newline, one item per line, decorations on every other line only), plus small trees holding one value of length 240..260 / 65530..65540 / 131077; "
-                      "real mpt_parse_node vs generating tree and vs the undecorated parse; nontrivial = distinct (tree,format,mask) documents with a non-empty mask "
+                      "real mpt_parse_node vs generating tree and vs the undecorated parse; plus the C++ front end mpt::config_parser on files: fresh parser vs generating tree and read/reset-or-open/read reuse histories vs a fresh parser (ledger); nontrivial = distinct (tree,format,mask) documents with a non-empty mask "
                       "whose tree has at least one section containing a child, or which hold a value of >= 250 bytes";
 
 // ------------------------------------------------------------------ formats (documented format strings)
@@ -363,7 +364,7 @@ static Job parse_job(const std::string &s)
 {
 	Job j; char fam[16], fid[32], ms[16];
 	j.D = j.F = j.B = j.NV = 0; j.part = 0; j.parts = 1;
-	if (s.compare(0, 5, "tree:") == 0) sscanf(s.c_str(), "%15[^:]:%31[^:]:%d:%d:%d:%d:%15[^:]:%u/%u", fam, fid, &j.D, &j.F, &j.B, &j.NV, ms, &j.part, &j.parts);
+	if (s.compare(0, 5, "tree:") == 0 || s.compare(0, 4, "cxx:") == 0) sscanf(s.c_str(), "%15[^:]:%31[^:]:%d:%d:%d:%d:%15[^:]:%u/%u", fam, fid, &j.D, &j.F, &j.B, &j.NV, ms, &j.part, &j.parts);
 	else sscanf(s.c_str(), "%15[^:]:%31[^:]:%15[^:]:%u/%u", fam, fid, ms, &j.part, &j.parts);
 	j.family = fam; j.maskset = ms; j.fmt = 0;
 	for (int i = 0; i < NFMT; ++i) if (!strcmp(fmts[i].id, fid)) j.fmt = i;
@@ -385,6 +386,7 @@ void mc_jobs(Tier t, std::vector<std::string> &jobs)
 		add_tree_jobs(jobs, 2, 2, 1, 7, "all", 1);
 		add_tree_jobs(jobs, 3, 2, 0, 7, "few", 1);
 		add_tree_jobs(jobs, 2, 2, 0, 7, "all+ws", 1);
+		for (int i = 0; i < NFMT; ++i) jobs.push_back(fmt("cxx:%s:2:2:0:7:min:0/1", fmts[i].id));
 	} else {
 		for (int i = 0; i < NFMT; ++i) for (unsigned k = 0; k < 4; ++k) jobs.push_back(fmt("len:%s:thorough+ws:%u/4", fmts[i].id, k));
 		add_tree_jobs(jobs, 2, 2, 2, 7, "fewalt", 4);
@@ -396,6 +398,8 @@ void mc_jobs(Tier t, std::vector<std::string> &jobs)
 		add_tree_jobs(jobs, 2, 3, 0, 7, "min+ws", 1);
 		add_tree_jobs(jobs, 2, 3, 1, 7, "two", 1);
 		add_tree_jobs(jobs, 2, 2, 0, 7, "all+ws", 1);
+		for (int i = 0; i < NFMT; ++i) for (unsigned k = 0; k < 2; ++k) jobs.push_back(fmt("cxx:%s:2:2:1:7:min:%u/2", fmts[i].id, k));
+		for (int i = 0; i < NFMT; ++i) jobs.push_back(fmt("cxx:%s:2:2:0:7:few:0/1", fmts[i].id));
 	}
 }
 static std::vector<unsigned> masks_for(const Fmt &f, const std::string &set)
@@ -494,6 +498,104 @@ static void check_case(Run &r, const Fmt &f, const std::vector<TN> &tree, unsign
 	if (p.consumed != doc.size()) ++g_cnt[C_NOTCONSUMED];
 }
 
+// ------------------------------------------------------------------ C++ front end (mpt::config_parser) incl. object reuse
+// Same writer and model; the text goes through a file because mpt::parser only opens named files.  One case =
+// (document 2, document 1, switch): a fresh parser reads document 2 (must give the generating tree); a second parser
+// object reads document 1, is then pointed at document 2 either by reset() (same file name, new content) or by open()
+// of another file, and reads again into the same target node: the second result must be the fresh parser's result.
+enum { X_HIST, X_RESET, X_REOPEN, X_D1SAME, X_D1EMPTY, X_D1OPT, X_D1SECT, X_D1ESECT, X_RESETFAIL, X_NCNT };
+static const char *xname[] = { "cxx:histories", "cxx:switch-by-reset", "cxx:switch-by-open", "cxx:first-document-same", "cxx:first-document-empty",
+                               "cxx:first-document-ends-with-option", "cxx:first-document-ends-with-section-end", "cxx:first-document-ends-with-empty-section", "cxx:reset-refused(not flagged)" };
+static uint64_t g_xcnt[X_NCNT];
+static std::string g_file[2];
+static bool put_file(int k, const std::string &doc)
+{
+	if (g_file[k].empty()) g_file[k] = fmt("%s/c09-%d-%c.cfg", access("/dev/shm", W_OK) == 0 ? "/dev/shm" : "/tmp", (int) getpid(), 'a' + k);
+	FILE *fp = fopen(g_file[k].c_str(), "w");
+	if (!fp) return false;
+	bool ok = fwrite(doc.data(), 1, doc.size(), fp) == doc.size();
+	return fclose(fp) == 0 && ok;
+}
+static void drop_files() { for (int k = 0; k < 2; ++k) if (!g_file[k].empty()) unlink(g_file[k].c_str()); }
+static mpt::config_parser *cxx_new(const Fmt &f)
+{
+	mpt::config_parser *p = LIB(new mpt::config_parser);
+	LIB(p->set_format(f.fmt));
+	if (f.flags) mpt::mpt_parse_accept(&p->_d.name, f.flags); else p->_d.name.sect = p->_d.name.opt = 0xff;
+	return p;
+}
+struct XRes { int ret; std::string canon, linkerr; };
+static XRes cxx_read(mpt::config_parser *p, mpt::node *to)
+{
+	XRes x;
+	x.ret = LIB(p->read(*to, 0));
+	if (x.ret >= 0) canon_real(to->children, to, false, x.canon, x.linkerr);
+	return x;
+}
+static void fixed_tree(int which, std::vector<TN> &t)
+{
+	TN o; o.sect = false; o.name = "a"; o.val = "x"; o.quote = 0;
+	TN s; s.sect = true; s.name = "a"; s.quote = 0;
+	if (which == 0) t.push_back(o);                          // last event: option
+	else if (which == 1) { TN k = o; k.name = "b"; s.kids.push_back(k); t.push_back(s); }   // last event: section end
+	else t.push_back(s);                                      // empty section
+}
+static void cxx_case(Run &r, const Fmt &f, const std::vector<TN> &tree, unsigned mask, Ctx &x)
+{
+	size_t d1 = x.choose(5), sw = x.choose(2);
+	std::string want2; canon_model(tree, want2);
+	std::string doc2 = render(f, tree, mask), doc1, want1;
+	if (d1 == 0) { doc1 = doc2; want1 = want2; }
+	else if (d1 >= 2) { std::vector<TN> t1; fixed_tree((int) d1 - 2, t1); doc1 = render(f, t1, 0); canon_model(t1, want1); }
+	static const char *d1n[] = { "the same document", "an empty document", "a document ending with an option", "a document ending with a section end", "a document ending with an empty section" };
+	std::string hist = sw ? "reopen" : "reset";
+	std::string what = fmt("format %s \"%s\" mask %#x: read %s [%s], %s, read [%s]", f.id, f.fmt ? f.fmt : "(default)", mask, d1n[d1], show(doc1).c_str(),
+	                       sw ? "open() another file" : "reset() with new file content", show(doc2).c_str());
+	if (r.replaying) r.note("%s", what.c_str());
+	static bool warm = false;
+	for (int pass = warm ? 1 : 0; pass < 2; ++pass) {   // first case of a process runs twice: lazy library singletons must not count as leaks
+		warm = true;
+		asan_error(); ledger_reset();
+		r.hint("cxx|fresh");
+		if (!put_file(0, doc2)) { r.incomplete("cannot write scratch file"); return; }
+		mpt::config_parser *p = cxx_new(f);
+		mpt::node *n = LIB(new mpt::node);
+		bool opened = LIB(p->open(g_file[0].c_str()));
+		XRes fresh = cxx_read(p, n);
+		LIB((delete n, 0)); LIB((delete p, 0));
+		// reuse history
+		r.hint(sw ? "cxx|reopen" : "cxx|reset");
+		put_file(0, doc1);
+		p = cxx_new(f); n = LIB(new mpt::node);
+		LIB(p->open(g_file[0].c_str()));
+		XRes first = cxx_read(p, n);
+		bool switched;
+		if (sw) { put_file(1, doc2); switched = LIB(p->open(g_file[1].c_str())); }
+		else { put_file(0, doc2); switched = LIB(p->reset()); }
+		XRes second; second.ret = 0;
+		if (switched) second = cxx_read(p, n);
+		LIB((delete n, 0)); LIB((delete p, 0));
+		bool asan = asan_error(); size_t live = ledger_live();
+		if (!pass) continue;
+		++r.states; r.transitions += 3;
+		++g_xcnt[X_HIST]; ++g_xcnt[sw ? X_REOPEN : X_RESET]; ++g_xcnt[X_D1SAME + d1];
+		if (r.replaying) {
+			r.note("fresh parser: open %d, read %d: %s", (int) opened, fresh.ret, fresh.canon.c_str());
+			r.note("reused parser: first read %d: %s; switch %d; second read %d: %s", first.ret, first.canon.c_str(), (int) switched, second.ret, second.canon.c_str());
+			r.note("expected: [%s] then [%s]; ledger live %zu", want1.c_str(), want2.c_str(), live);
+		}
+		if (asan) { r.violation("cxx|" + hist + "|memory", what + ": AddressSanitizer report"); return; }
+		if (!opened || fresh.ret < 0) { r.violation("cxx|fresh|refused", what + fmt(": fresh parser open %d, read returned %d", (int) opened, fresh.ret)); return; }
+		if (fresh.canon != want2 || !fresh.linkerr.empty()) { r.violation("cxx|fresh|wrong-tree", what + ": fresh parser gave [" + fresh.canon + "] " + fresh.linkerr + ", expected [" + want2 + "]"); return; }
+		if (first.ret < 0 || first.canon != want1 || !first.linkerr.empty()) { r.violation("cxx|fresh|wrong-tree", what + fmt(": first read returned %d [", first.ret) + first.canon + "] expected [" + want1 + "]"); return; }
+		if (!switched) { ++g_xcnt[X_RESETFAIL]; }
+		else if ((second.ret >= 0) != (fresh.ret >= 0) || second.canon != fresh.canon || !second.linkerr.empty())
+			{ r.violation("cxx|" + hist + "|differs-from-fresh", what + fmt(": second read returned %d [", second.ret) + second.canon + "] " + second.linkerr + ", a fresh parser gives [" + fresh.canon + "]"); return; }
+		if (live) { r.violation("cxx|" + hist + "|leak", what + fmt(": %zu library allocations still live after parser and target node were destroyed", live)); return; }
+		++g_cnt[C_CASES]; ++g_cnt[C_OK];
+	}
+}
+
 struct JobCtx { int nflav; Job j; std::vector<const char *> sn, on; std::vector<int> vals; std::vector<unsigned> masks, masks_big; std::vector<size_t> lens; };
 static void setup(JobCtx &jc, const std::string &job)
 {
@@ -504,7 +606,7 @@ static void setup(JobCtx &jc, const std::string &job)
 	const Fmt &f = fmts[jc.j.fmt];
 	for (const char *n : NAMES) { if (name_ok(f, true, n)) jc.sn.push_back(n); if (name_ok(f, false, n)) jc.on.push_back(n); }
 	for (int v = 0; v < jc.j.NV; ++v) jc.vals.push_back(v);
-	if (jc.j.family == "tree") jc.masks = masks_for(f, jc.j.maskset);
+	if (jc.j.family == "tree" || jc.j.family == "cxx") jc.masks = masks_for(f, jc.j.maskset);
 	else { jc.masks = masks_for(f, jc.j.maskset == "quick" ? "fewalt" : "all"); jc.masks_big = masks_for(f, jc.j.maskset == "quick" ? "min" : "few"); jc.lens = lens_for(jc.j.maskset); }
 	g_tc.valid = false;
 }
@@ -517,7 +619,7 @@ static void body(Run &r, const JobCtx &jc, Ctx &x)
 	std::vector<TN> tree;
 	const std::vector<unsigned> *masks = &jc.masks;
 	int nflav = jc.nflav; bool lenfam = false;
-	if (j.family == "tree") {
+	if (j.family == "tree" || j.family == "cxx") {
 		Gen g = { x, f, j.D, j.F, j.B, jc.sn, jc.on, jc.vals };
 		if (flat(f)) gen_sep(g, tree); else gen_list(g, tree, 1);
 	} else {
@@ -550,6 +652,7 @@ static void body(Run &r, const JobCtx &jc, Ctx &x)
 		if (r.samples.size() < 2 && tree.size() >= 2 && !tree[1].kids.empty()) r.sample(fmt("%s: ", f.id) + show(render(f, tree, masks->back())).substr(0, 300));
 	}
 	unsigned mask = (*masks)[mi];
+	if (j.family == "cxx") { cxx_case(r, f, tree, mask, x); return; }
 	if (lenfam && __builtin_popcount(mask & ~ALT) > 2) nflav = 1;   // long values: flavours with at most two decorations
 	int flav = 0;
 	if (nflav > 1 && (mask & (WSBITS | COMBITS))) {
@@ -571,15 +674,20 @@ void mc_explore(Run &r, const std::string &job)
 	for (int i = 0; i < NCOMFLAV; ++i) r.require(std::string("comment:") + comflav[i]);
 	memset(g_flavcnt, 0, sizeof g_flavcnt); memset(g_comcnt, 0, sizeof g_comcnt);
 	for (int i = 0; i < NFMT; ++i) r.require(std::string("cases:") + fmts[i].id);
+	for (int i = 0; i < X_RESETFAIL; ++i) r.require(xname[i]);
+	memset(g_xcnt, 0, sizeof g_xcnt);
 	dfs(r, [&](Ctx &x) { body(r, jc, x); });
 	const Fmt &f = fmts[jc.j.fmt];
 	for (int i = 0; i < C_BIT0; ++i) if (g_cnt[i]) { r.count(cntname[i], g_cnt[i]); if (i == C_CASES) r.count(std::string("cases:") + f.id, g_cnt[i]); }
 	for (int b = 0; b < NBITN; ++b) if (g_cnt[C_BIT0 + b]) r.count(std::string("deco:") + bitname[b], g_cnt[C_BIT0 + b]);
 	for (int i = 0; i < NFLAV; ++i) if (g_flavcnt[i]) r.count(std::string("ws:") + flavs[i].name, g_flavcnt[i]);
 	for (int i = 0; i < NCOMFLAV; ++i) if (g_comcnt[i]) r.count(std::string("comment:") + comflav[i], g_comcnt[i]);
+	for (int i = 0; i < X_NCNT; ++i) if (g_xcnt[i]) r.count(xname[i], g_xcnt[i]);
+	drop_files();
 }
 void mc_replay(Run &r, const std::string &job, const Vec &v)
 {
 	JobCtx jc; setup(jc, job);
 	dfs_replay(r, [&](Ctx &x) { body(r, jc, x); }, v);
+	drop_files();
 }
